@@ -104,7 +104,21 @@ func layoutShape(items []an.Item) string {
 		switch it.Kind {
 		case "byte":
 			if len(it.Bits) > 0 {
-				s = append(s, "byte{"+bitsString(it.Bits)+"}")
+				// a value field shares its byte with constant flag bits that are OR-ed in separately: what it contributes
+				// for in-range values is its mask outside those bits (a kind of more than 6 bits is not a kind)
+				var flags uint64
+				for _, b := range it.Bits {
+					if b.Shift == 0 && b.Mask != 0 && b.Mask&(b.Mask-1) == 0 {
+						flags |= b.Mask
+					}
+				}
+				bits := append([]an.Bit{}, it.Bits...)
+				for i := range bits {
+					if bits[i].Shift > 0 {
+						bits[i].Mask &^= flags
+					}
+				}
+				s = append(s, "byte{"+bitsString(bits)+"}")
 			} else {
 				s = append(s, "byte("+it.Src+")")
 			}
@@ -139,43 +153,57 @@ func errorCodecShape(p *an.Prog) string {
 		return "unresolved"
 	}
 	var parts []string
-	an.Instrs(me, func(in ssa.Instruction) {
-		if call, ok := in.(*ssa.Call); ok {
-			if obj := an.CalleeObj(call.Common()); obj != nil && (strings.HasPrefix(obj.Name(), "PutUint") || strings.HasPrefix(obj.Name(), "AppendUint")) && strings.Contains(obj.FullName(), "Endian") {
-				// PutUintN into a [N/8]byte and AppendUintN onto an empty slice emit the same bytes
-				w := "?"
-				if strings.HasPrefix(obj.Name(), "PutUint") {
-					if sl, isSl := call.Common().Args[1].(*ssa.Slice); isSl {
-						if al, isAl := sl.X.(*ssa.Alloc); isAl {
-							if at, isArr := deref(al.Type()).Underlying().(*types.Array); isArr {
-								w = fmt.Sprint(at.Len()*8) + "@0"
+	// encoder: what each returned byte string is the concatenation of, however it is put together
+	for _, rc := range an.ReturnCases(me) {
+		ps, ok := concatParts(rc.Vals[0], 0)
+		if !ok {
+			parts = append(parts, "enc:?")
+			continue
+		}
+		var seq []string
+		for _, part := range ps {
+			desc := "?" + an.Render(part, 1)
+			switch x := part.(type) {
+			case *ssa.Alloc:
+				// a [N]byte filled by PutUintN
+				if at, isArr := deref(x.Type()).Underlying().(*types.Array); isArr {
+					an.Instrs(me, func(in ssa.Instruction) {
+						call, isCall := in.(*ssa.Call)
+						if !isCall {
+							return
+						}
+						obj := an.CalleeObj(call.Common())
+						if obj == nil || !strings.HasPrefix(obj.Name(), "PutUint") || !strings.Contains(obj.FullName(), "Endian") {
+							return
+						}
+						if sl, isSl := call.Common().Args[1].(*ssa.Slice); isSl && sl.X == ssa.Value(x) && sl.Low == nil {
+							end := "LE"
+							if strings.Contains(obj.FullName(), "bigEndian") {
+								end = "BE"
+							}
+							width := strings.TrimPrefix(obj.Name(), "PutUint")
+							if fmt.Sprint(at.Len()*8) == width {
+								desc = "u" + width + "/" + end
 							}
 						}
-					}
-				} else {
-					base := call.Common().Args[1]
-					empty := an.IsNilConst(base)
-					if sl, isSl := base.(*ssa.Slice); isSl && sl.High != nil {
-						if k, isK := an.ConstInt(sl.High); isK && k == 0 {
-							empty = true
-						}
-					}
-					if empty {
-						w = strings.TrimPrefix(obj.Name(), "AppendUint") + "@0"
-					}
+					})
 				}
-				end := "LE"
-				if strings.Contains(obj.FullName(), "bigEndian") {
-					end = "BE"
+			case *ssa.Call:
+				if obj := an.CalleeObj(x.Common()); obj != nil && strings.HasPrefix(obj.Name(), "AppendUint") && strings.Contains(obj.FullName(), "Endian") {
+					end := "LE"
+					if strings.Contains(obj.FullName(), "bigEndian") {
+						end = "BE"
+					}
+					desc = "u" + strings.TrimPrefix(obj.Name(), "AppendUint") + "/" + end
 				}
-				width := strings.TrimPrefix(strings.TrimPrefix(obj.Name(), "PutUint"), "AppendUint")
-				parts = append(parts, "enc:u"+width+"/"+end+"/"+w)
 			}
-			if call.Common().IsInvoke() && call.Common().Method.Name() == "Error" {
-				parts = append(parts, "enc:text=err.Error()")
+			if txt, isCall := an.Resolve(an.Unwrap(an.Resolve(part))).(*ssa.Call); isCall && txt.Common().IsInvoke() && txt.Common().Method.Name() == "Error" {
+				desc = "text=err.Error()"
 			}
+			seq = append(seq, desc)
 		}
-	})
+		parts = append(parts, "enc:["+strings.Join(seq, "][")+"]")
+	}
 	an.Instrs(ue, func(in ssa.Instruction) {
 		switch x := in.(type) {
 		case *ssa.Call:
